@@ -22,6 +22,7 @@ import (
 	route "github.com/envoyproxy/go-control-plane/envoy/config/route/v3"
 
 	meshconfig "istio.io/api/mesh/v1alpha1"
+	"istio.io/istio/pilot/pkg/features"
 	"istio.io/istio/pilot/pkg/model"
 	v3 "istio.io/istio/pilot/pkg/xds/v3"
 	xdsfake "istio.io/istio/pilot/test/xds"
@@ -235,12 +236,22 @@ func buildWorld(m *meshCase) (w *world, fail string) {
 			mc.EnableAutoMtls.Value = v == "1"
 		}
 	}
+	setAmbient(m.opts["ambient"] == "1")
+	kube := append([]string{}, m.kube...)
+	if m.opts["ambient"] == "1" {
+		// the ambient index reads services / workloads from the Kubernetes side: mirror those config objects there
+		for _, c := range m.cfgs {
+			if doc := c.kubeDoc(); doc != "" {
+				kube = append(kube, doc)
+			}
+		}
+	}
 	fail = guarded("init", 20*time.Second, func() {
 		w.s = xdsfake.NewFakeDiscoveryServer(w.fl, xdsfake.FakeOptions{
 			Configs:                cfgs,
 			Services:               svcs,
 			MeshConfig:             mc,
-			KubernetesObjectString: strings.Join(m.kube, "\n---\n"),
+			KubernetesObjectString: strings.Join(kube, "\n---\n"),
 		})
 		for _, e := range m.eps {
 			svc := w.s.MemRegistry.GetService(host.Name(e.Host))
@@ -271,6 +282,19 @@ func buildWorld(m *meshCase) (w *world, fail string) {
 		return w, fail
 	}
 	return w, ""
+}
+
+// setAmbient switches the control plane between the two deployments it supports: PILOT_ENABLE_AMBIENT=true (with the
+// defaults the dependent flags take then, pilot/pkg/features/ambient.go) and the default, non-ambient one. The
+// variables are read when a discovery server is built and while it generates; a case uses one setting throughout.
+func setAmbient(on bool) {
+	features.EnableAmbient = on
+	features.EnableAmbientWaypoints = on
+	features.EnableHBONESend = on
+	features.EnableSidecarHBONEListening = on
+	features.EnableAmbientStatus = on
+	features.EnableIngressWaypointRouting = on
+	features.EnableAmbientWaypointMultiNetwork = on
 }
 
 // snapshot is one full state-of-the-world push for one proxy.
